@@ -333,8 +333,6 @@ def run(rep, tier, seed):
     checked_alphabet = False
     for case, kind, res in zip(cases, kinds, results):
         _harness_ok(res)
-        slim = dict(case)
-        slim.pop("models", None)
         if _died(rep, res, "workspace-" + kind, case):
             continue
         if not checked_alphabet:
